@@ -39,6 +39,7 @@ def floors(m, tier):
             "observed refused": (c.get("obs:refused", 0), 200),
             "M-query evaluations": (m.monitor.get("M-query", 0), BUDGET[tier] // 4),
             "'?' separated queries": (c.get("question_mark_separator", 0), 100),
+            "queries with a leading / trailing separator": (c.get("leading_or_trailing_separator", 0), 100),
             "queries chained on a refused query": (c.get("chained_on_refused", 0), 100)}
 
 
@@ -235,6 +236,10 @@ def one_case(rec, model, vocab, Sid, rng, t, s, pairs_q, pairs_kw, mode):
         q = sepq.join("%s=%s" % (k, v) for k, v in pairs_q)
         if sepq == "?":
             rec.count("question_mark_separator")
+        if pairs_q and len(s + q) % 9 == 0:
+            # "optionally leading or trailing ? or & are ignored" (documented)
+            q = q + "&?"[len(q) % 2] if len(q) % 3 else "&?"[len(q) % 2] + q
+            rec.count("leading_or_trailing_separator")
         case["q"] = q
         if mode == "plain_string" and (":" in s or Sid(str(x)).type != x.type):
             mode = "string"
